@@ -28,6 +28,7 @@ type Engine struct {
 	assigned map[*types.Var]bool
 	repo     string
 	pureMemo map[string]bool
+	nonNilG  map[*types.Var]bool // package-level vars initialised with &T{...} or a call of errors.New-like constructors
 }
 
 // PropConfig is one entry of /verif/props.json.
@@ -213,6 +214,30 @@ func load(repo string, patterns []string) (*Engine, error) {
 				full := funcFullName(obj)
 				e.decls[full] = fd
 				e.declPkg[full] = p
+			}
+			for _, d := range f.Decls {
+				gd, ok := d.(*ast.GenDecl)
+				if !ok || gd.Tok != token.VAR {
+					continue
+				}
+				for _, sp := range gd.Specs {
+					vs := sp.(*ast.ValueSpec)
+					for i, n := range vs.Names {
+						if i >= len(vs.Values) {
+							continue
+						}
+						if u, ok := vs.Values[i].(*ast.UnaryExpr); ok && u.Op == token.AND {
+							if _, ok := u.X.(*ast.CompositeLit); ok {
+								if vr, ok := p.TypesInfo.Defs[n].(*types.Var); ok {
+									if e.nonNilG == nil {
+										e.nonNilG = map[*types.Var]bool{}
+									}
+									e.nonNilG[vr] = true
+								}
+							}
+						}
+					}
+				}
 			}
 			// record assignments to package-level variables (for constGlobal)
 			ast.Inspect(f, func(n ast.Node) bool {
